@@ -129,6 +129,24 @@ pub fn corpus(idx: usize, seed: u64, w: &mut dyn Write, thorough: bool) -> Optio
                 g.step(&x("bobby", vec![], MMsg::WP { id: l1 }));
             }
             g.battery_drain();
+            // one bucket travels through three purchases without being withdrawn (a fee is pending at each hop and is
+            // deposited by the next purchase), topped up between hops so that it matches the next ask
+            g.step(&x("alice", natives(&[(1, "uosmo")]), MMsg::CL { id: 41, create: create(&[(2000, JUNO_DENOM), (2000, USDC_DENOM)]) }));
+            g.step(&x("alice", vec![], MMsg::FI { id: 41, seconds: 600 }));
+            g.step(&x("bobby", natives(&[(2000, JUNO_DENOM), (2000, USDC_DENOM)]), MMsg::CB { id: 41 }));
+            g.step(&x("bobby", vec![], MMsg::BL { listing_id: 41, bucket_id: 41 }));
+            let mut holder = "alice";
+            for (hop, (seller, lid)) in [("carol", 42u64), ("david", 43), ("bobby", 44)].iter().enumerate() {
+                let held = g.h.sim.buckets().into_iter().find(|((o, id), _)| o.as_str() == holder && *id == 41).map(|(_, b)| b.funds).expect("travelling bucket");
+                g.step(&x(seller, natives(&[(1 + hop as u128, "uosmo")]), MMsg::CL { id: *lid, create: Create { ask: gbal_to_raw(&held), whitelist: if hop == 1 { Some(RawAddr::valid(holder)) } else { None } } }));
+                g.step(&x(seller, vec![], MMsg::FI { id: *lid, seconds: 600 }));
+                g.step(&x(holder, vec![], MMsg::BL { listing_id: *lid, bucket_id: 41 }));
+                g.battery_faults();
+                holder = seller;
+            }
+            g.battery_queries();
+            g.step(&x(holder, vec![], MMsg::RB { id: 41 }));
+            g.battery_drain();
             Some(g.stats)
         }
         1 => {
